@@ -66,7 +66,7 @@ def generate(seed, n, max_tokens, scratch=None, mutants=2, procs=4, grammar=None
                 if key in seen:
                     continue
                 seen.add(key)
-                out.append({"kind": r["kind"], "op": r.get("op", ""), "w": list(r["w"])})
+                out.append({"kind": r["kind"], "op": r.get("op", ""), "w": list(r["w"]), "ps": sorted(r.get("ps", []))})
         if not any(r["kind"] == "sentence" for r in out):
             raise MachineryError("SentenceGen produced no sentence")
         return out
@@ -75,11 +75,35 @@ def generate(seed, n, max_tokens, scratch=None, mutants=2, procs=4, grammar=None
             own.__exit__(None, None, None)
 
 
-def sentences(seed, n, max_tokens, scratch=None):
+def sentences(seed, n, max_tokens, scratch=None, cover=0, stats=None):
     """n (or fewer, after removing duplicates) sentences of the real Emboss grammar, each a list of
-    token kinds, at most max_tokens long."""
-    cases = generate(seed, int(n * 1.3) + 4, max_tokens, scratch=scratch, mutants=0)
-    return [c["w"] for c in cases if c["kind"] == "sentence"][:n]
+    token kinds, at most max_tokens long.  cover > 1: TLC derives cover*n sentences and the n returned are
+    picked so that every production some derivation applied is applied by a returned one (greedy cover first,
+    then generation order) - a choice among TLC's sentences, not a verdict."""
+    want = int(n * max(1, cover) * 1.3) + 4
+    cases = [c for c in generate(seed, want, max_tokens, scratch=scratch, mutants=0, procs=8 if cover > 1 else 4) if c["kind"] == "sentence"]
+    if cover <= 1:
+        return [c["w"] for c in cases][:n]
+    covered, picked, rest = set(), [], list(range(len(cases)))
+    allp = set()
+    for c in cases:
+        allp.update(c["ps"])
+    while rest and covered != allp and len(picked) < n:
+        best = max(rest, key=lambda i: (len(set(cases[i]["ps"]) - covered), -len(cases[i]["w"])))
+        if not set(cases[best]["ps"]) - covered:
+            break
+        covered.update(cases[best]["ps"])
+        picked.append(best)
+        rest.remove(best)
+    for i in rest:
+        if len(picked) >= n:
+            break
+        picked.append(i)
+    if stats is not None:
+        stats.update({"derived": len(cases), "returned": len(picked), "productions_applied_by_some_derivation": len(allp),
+                      "productions_applied_by_returned": len(set().union(*[set(cases[i]["ps"]) for i in picked])) if picked else 0,
+                      "productions_in_grammar": len(emboss_grammar()["prods"])})
+    return [cases[i]["w"] for i in picked]
 
 
 def small_grammars(scratch, tag, *, nts, ts, max_rhs, max_prods, min_prods=1, simulate=None, seed=0, add_tlc=None):
